@@ -173,6 +173,13 @@ impl RoundTrip {
             if let Leaf::Bytes(c) | Leaf::Str(c) = &p.leaf { out.stats.probe_if(c.len % 8 != 0 && p.none_at.is_none(), "byte payload with padding"); }
         }
         out.stats.probe_if(self.payloads.len() > 1, "concatenated stream");
+        for (p, val) in self.payloads.iter().zip(vals.iter()) {
+            if let Leaf::Sel(_) | Leaf::SelZ(_) = p.leaf {
+                let long = val.as_any().downcast_ref::<crate::payload::Holder<simple_sds::bit_vector::select_support::SelectSupport<simple_sds::bit_vector::Identity>>>().map(|h| h.0.long_superblocks())
+                    .or_else(|| val.as_any().downcast_ref::<crate::payload::Holder<simple_sds::bit_vector::select_support::SelectSupport<simple_sds::bit_vector::Complement>>>().map(|h| h.0.long_superblocks()));
+                out.stats.probe_if(long.unwrap_or(0) > 0, "select support with long superblocks");
+            }
+        }
         out.stats.probe_if(r.stats.eintr > 0, "EINTR during load");
         out.stats.probe_if(w.stats.eintr > 0, "EINTR during serialize");
 
